@@ -74,6 +74,8 @@ pub fn ids(idmap: u8, n: usize) -> Vec<u32> {
         0 => [1, 118, 200, 5, 400, 707, 12823, 3000],
         1 => [50, 40, 30, 20, 10, 60, 70, 5],
         2 => [30, 10, 9_999_999, 20, 40, 9_999_998, 2, 50],
+        // a term with id 0 (HP:0000000 is an ordinary id; slot 0 of the arena is not term 0)
+        4 => [0, 40, 30, 20, 10, 60, 70, 5],
         // id 1 (the usual root id) on an inner node
         _ => [7, 1, 11, 2, 5, 13, 3, 17],
     };
@@ -1062,7 +1064,8 @@ fn check_c13_flags(c: &Case) -> Check {
 pub fn check_c15(c: &Case) -> Check {
     let m = Model::new(c);
     let clean = walk(&build(c, false)?);
-    let missing = [77_777u32, 0u32];
+    // two ids that name no term of the case (0 is one of them unless the id map gives a term the id 0)
+    let missing: Vec<u32> = [77_777u32, 0, 99].into_iter().filter(|x| !m.ids.contains(x)).take(2).collect();
     let r = panic::catch_unwind(|| -> Result<String, String> {
         let mut b = Builder::new();
         for node in node_order(c.n, c.order) {
@@ -1413,7 +1416,7 @@ pub fn run_parallel(cs: Vec<Case>, f: fn(&Case) -> Check) -> Result<usize, (Case
 pub fn oracle(prop: &str) -> Option<(fn(&Case) -> Check, &'static [u8], bool)> {
     // (oracle, id maps, with annotation facts)
     Some(match prop {
-        "C01" => (check_c01, &[0, 1, 2, 3], false),
+        "C01" => (check_c01, &[0, 1, 2, 3, 4], false),
         "C02" => (check_c02, &[0, 1], true),
         "C03" => (check_c03, &[1], true),
         "C04" => (check_c04, &[1], true),
@@ -1422,10 +1425,10 @@ pub fn oracle(prop: &str) -> Option<(fn(&Case) -> Check, &'static [u8], bool)> {
         "C07" => (check_c07, &[0], true),
         "C08" => (check_c08, &[0], true),
         "C18" => (check_c18, &[0, 1], true),
-        "C10" => (check_c10, &[0, 2], true),
+        "C10" => (check_c10, &[0, 2, 4], true),
         "C12" => (check_c12, &[1, 2], false),
         "C13" => (check_c13, &[0], true),
-        "C15" => (check_c15, &[1], true),
+        "C15" => (check_c15, &[1, 4], true),
         "C16" => (check_c16, &[0, 1], true),
         "C19" => (check_c19, &[0], false),
         _ => return None,
@@ -2552,6 +2555,8 @@ pub fn check_c17_all(thorough: bool) -> Result<usize, String> {
     // inputs with distinct contents; some overlap, some are ancestors of members of others
     let pool: Vec<BTreeSet<u32>> = vec![
         [3].into(), [8].into(), [2, 9].into(), [4, 5].into(), [1].into(), [8, 10, 11].into(), [6].into(), [2].into(),
+        // an input without any term is an input like any other
+        BTreeSet::new(),
     ];
     let maxn = if thorough { 8 } else { 7 };
     let seeds = if thorough { 3000 } else { 200 };
